@@ -1526,6 +1526,10 @@ class AllConnGraph(nx.DiGraph):
                     self._collect_error(f"{system.msginfo}: Can't set value of "
                                         f"'{self.msgname(node)}': {str(err)}")
                     return
+                if np.size(tval) == 1:
+                    # convert_set promotes scalars to 1-element arrays, which numpy will not
+                    # assign to a single entry selected by `indices`
+                    tval = np.asarray(tval).ravel()[0]
                 if indices is None:
                     model._inputs._abs_set_val(node[1], tval)
                 else:
@@ -3724,7 +3728,8 @@ class AllConnGraph(nx.DiGraph):
                 for idx in indices_list:
                     chain.append(idx.indexed_val(chain[-1]))
 
-                if np.shape(val) != () and np.squeeze(val).shape != np.squeeze(chain[-1]).shape:
+                # a single value broadcasts (convert_set hands scalars over as 1-element arrays)
+                if np.size(val) != 1 and np.squeeze(val).shape != np.squeeze(chain[-1]).shape:
                     msg = (f"Value shape {np.squeeze(val).shape} does not match shape "
                            f"{np.squeeze(chain[-1]).shape} of the destination")
             else:
